@@ -92,6 +92,8 @@ class Ctx:
         self.max_samples = 6
         self.max_violations = 200
         self._auto_sampled = False
+        self._remembered = []
+        self._again = False
 
     # -- recording -------------------------------------------------------------------------
     @property
@@ -122,8 +124,26 @@ class Ctx:
         """The named counter must reach `minimum` or the run is inconclusive (monitor never reached)."""
         self.requirements[name] = max(minimum, self.requirements.get(name, 0))
 
+    def remember(self, fn, *args, limit=150):
+        """Order-dependence monitor: the first `limit` cases of a run are kept and judged once more at the very end (run_again),
+        after everything else has gone through the same process - state left behind by other inputs (memo tables keyed too
+        coarsely, shared constants edited in place) shows up as a verdict that changed."""
+        if not self._again and len(self._remembered) < limit:
+            self._remembered.append((fn, args))
+
+    def run_again(self):
+        self._again = True
+        try:
+            for fn, args in self._remembered:
+                fn(*args)
+                self.count('cases_run_again_at_the_end')
+        finally:
+            self._again = False
+
     def violation(self, sig, detail, case=None):
         self.counters['violations_raw'] += 1
+        if self._again:
+            detail = '[case judged again at the end of the workload] ' + str(detail)
         if len(self.violations) < self.max_violations or not any(v['sig'] == sig for v in self.violations):
             self.violations.append({'sig': sig, 'detail': detail, 'case': case})
 
